@@ -238,25 +238,31 @@ def r2(ctx, rep):
             if not ok:
                 rep.finding(R2, f'C06.R2/mutate/{attr}/{mod}:{qn}', m.loc(mod, c), qn, f'`{astq.u(c)}` mutates Branch.{attr} outside __init__/copy/append')
     rep.floor('C06.R2', 'writes to marks/sets', n, 10)
+    itn = Interp({}, where='proof/common.py Branch accessors')
     for name, attr in (('new_constant', '_nextconst'), ('new_world', '_nextworld')):
         fn = m.func(COMMON, f'Branch.{name}')
-        b = astq.stmts(fn)
-        ok = len(b) == 1 and isinstance(b[0], ast.Return) and astq.u(b[0].value) == f'self.{attr}'
-        rep.instance(R2, ok=ok, nontrivial=name)
         rep.consult(m.loc(COMMON, fn) + f' Branch.{name}')
+        b_ = Obj('branch', _nextconst='MARKC', _nextworld='MARKW')
+        r = itn.safe(fn, [b_])
+        ok = r == {'_nextconst': 'MARKC', '_nextworld': 'MARKW'}[attr] and b_._nextconst == 'MARKC' and b_._nextworld == 'MARKW'
+        rep.instance(R2, ok=ok, nontrivial=name)
         if not ok:
-            rep.finding(R2, f'C06.R2/{name}', m.loc(COMMON, fn), f'Branch.{name}', f'does not return self.{attr} unmodified')
+            rep.finding(R2, f'C06.R2/{name}', m.loc(COMMON, fn), f'Branch.{name}', f'returns {r!r}, not the mark self.{attr} unmodified')
+    # Branch.__init__ folded: first constant, world 0, empty own sets
     init = m.func(COMMON, 'Branch.__init__')
-    txt = astq.u(init)
-    ok = 'self._nextworld = 0' in txt and 'self._nextconst = _FIRST_CONST' in txt and 'self._constants = set()' in txt and 'self._worlds = set()' in txt
+    rep.consult(m.loc(COMMON, init) + ' Branch.__init__')
+    FIRST = Obj('FIRST-CONSTANT')
+    iti = Interp(dict(EventEmitter=Obj('EventEmitter', __init__=lambda *a: None), Branch=Obj('Branch', Events=()), qset=list, SetView=lambda b_: ('view', id(b_)),
+                      Constant=Obj('Constant', first=lambda: FIRST)), where='proof/common.py Branch.__init__', modtree=m.trees[COMMON])
+    b0 = Obj('branch', INDEX_KEYS=(), Index=lambda keys: {})
+    r = iti.safe(init, [b0])
+    ok = getattr(b0, '_nextworld', None) == 0 and getattr(b0, '_nextconst', None) is FIRST and getattr(b0, '_constants', None) == set() and getattr(b0, '_worlds', None) == set() \
+        and getattr(b0, '_constants', 1) is not getattr(b0, '_worlds', 2)
     rep.instance(R2, ok=ok, nontrivial='init')
     if not ok:
-        rep.finding(R2, 'C06.R2/Branch.__init__', m.loc(COMMON, init), 'Branch.__init__', 'initial marks/sets are not (first constant, world 0, empty sets)')
-    v = ctx.m.modns(COMMON).get('_FIRST_CONST')
-    ok = v is not None and astq.u(v[1]) == 'Constant.first()'
-    rep.instance(R2, ok=ok, nontrivial='_FIRST_CONST')
-    if not ok:
-        rep.finding(R2, 'C06.R2/_FIRST_CONST', m.relfile(COMMON), '_FIRST_CONST', 'is not Constant.first()')
+        rep.finding(R2, 'C06.R2/Branch.__init__', m.loc(COMMON, init), 'Branch.__init__',
+                    f'initial marks/sets are {getattr(b0, "_nextconst", None)!r}, {getattr(b0, "_nextworld", None)!r}, {getattr(b0, "_constants", None)!r}, {getattr(b0, "_worlds", None)!r} '
+                    f'(expected the first constant, world 0, two empty sets); {r!r}')
 
 
 class Copyable:
@@ -315,8 +321,9 @@ def r3(ctx, rep):
         rep.finding(R3, f'C06.R3/Branch.copy/{p}', m.loc(COMMON, fn), 'Branch.copy', p)
     # every slot of Branch that is a mutable container is handled by copy()
     slots = m.getattr(ClassRef(COMMON, 'Branch'), '__slots__')
-    handled = {t.attr for t, st in astq.stores(fn) if isinstance(t, ast.Attribute) and astq.u(t.value) == 'b'}
-    missing = [s for s in (slots or ()) if s not in handled and s not in ('_origin', '_parent')]
+    # (what the folded copy() actually set on the new object -- whatever the local is called)
+    handled = set(vars(out)) if hasattr(out, '__dict__') else set()
+    missing = [s for s in (slots or ()) if s not in handled and s not in ('_origin', '_parent', '_model')]
     rep.instance(R3, ok=not missing, nontrivial='slots')
     for s in missing:
         rep.finding(R3, f'C06.R3/Branch.copy/slot/{s}', m.loc(COMMON, fn), 'Branch.copy', f'slot {s} is not set on the copy')
